@@ -256,6 +256,13 @@ def build(p):
                 ex = Executors.with_timeout(tap, ly.get("T", 10 ** 6) / 1000.0, name=nm)
             elif t == "cos":
                 ex = Executors.with_cancel_on_shutdown(tap, name=nm)
+            elif t == "asyncio":
+                # (top layer only: it returns asyncio futures, which no other layer accepts; the loop is never run -
+                #  only the executor's own duties are observed: refusal after shutdown, propagation of shutdown)
+                import asyncio as _aio
+                loop = _aio.new_event_loop()
+                state["loop"] = loop
+                ex = Executors.with_asyncio(tap, loop=loop, name=nm)
             else:
                 raise ValueError(t)
         state["ex"] = ex
@@ -374,6 +381,8 @@ def build(p):
             else:
                 E.emit("Final", f=j, s=st, a=-1)
         E.emit("End")
+        if state.get("loop") is not None:
+            state["loop"].close()
 
     opts = {"horizon": horizon + 400000, "max_steps": 60000}
     if p.get("roles"):
